@@ -1,16 +1,65 @@
 import TypstyleModel.Proofs.Cli
-/-! C16 — all front-ends agree with the library. -/
+import TypstyleModel.Model.Env
+/-! C16 — all front-ends agree with the library.  `lib` is the library; theorems hold for every `lib`. -/
 namespace Typstyle.Cli
 
 /-- Standard input without `--check`/`--inplace`: stdout is exactly the library result, or the
 unchanged input when the library refuses it. -/
 theorem C16_stdin_prints_library_result (lib : Lib) (a : Args) (w : Entry) (input : String)
     (hc : a.check = false) (hi : a.inplace = false) :
-    (runStdin lib a w input).evs.filterMap (fun | .out s => some s | _ => none) = [(lib a.style input).getD input] := by
-  unfold runStdin formatOne formatDebug
-  simp only [hc, hi]
-  cases h : lib a.style input with
-  | none => cases hq : a.quiet <;> simp [warnEv, hq]
-  | some r => by_cases hr : (r != input) = true <;> simp [hr]
+    outsOf (runStdin lib a w input).evs = [(lib a.style input).getD input] := by
+  unfold runStdin
+  have := formatOne_plain lib a hc hi none input { world := w } input (by simp [getInput])
+  cases hf : formatOne lib a none input { world := w } with
+  | mk st res =>
+    rw [hf] at this
+    cases res with
+    | none => simp at this
+    | some ch => simpa [outsOf, plainOutput] using this.2.1
+
+/-- T16.1: several files, no `--check`/`--inplace`: stdout is the concatenation, in argument
+order, of the library result of every readable input (the input itself when the library refuses
+it); nothing is added, removed or reordered, and no file is written. -/
+theorem C16_files_print_library_results_in_order (lib : Lib) (a : Args) (w : Entry) (ps : List Path)
+    (hc : a.check = false) (hi : a.inplace = false) :
+    outsOf (runFiles lib a w ps).evs = ps.filterMap (fun p => (readToString w p).map fun x => (lib a.style x).getD x) ∧
+    (runFiles lib a w ps).world = w := by
+  unfold runFiles
+  obtain ⟨h1, h2, _⟩ := foldl_manyStep_plain lib a hc hi w ps { st := { world := w } } rfl
+  simp only
+  split <;> simp only [outsOf_append, h1, h2] <;> simp [outsOf] <;> rfl
+
+/-- T16.2: in place, what is written is the library result for the given options (and only when it differs). -/
+theorem C16_inplace_writes_library_result (lib : Lib) (a : Args) (w : Entry) (p : Path) (x y : String)
+    (hr : readToString w p = some x) (hl : lib a.style x = some y) (hne : y ≠ x) :
+    readToString (inplaceStep lib a w p) p = some y := by
+  unfold inplaceStep
+  simp only [hr, hl, hne, if_false]
+  exact readToString_write_same w p y x hr
+
+/-- `StyleArgs::to_config`. -/
+def toConfig (s : Style) : Typstyle.Config :=
+  { tab := s.tab, maxWidth := s.column, blankUpper := 2, reorder := s.reorder }
+
+/-- T16.3: the column, tab-width and reorder options select exactly the corresponding library
+configuration fields, and the fourth field keeps its default. -/
+theorem C16_options_select_configuration (s : Style) :
+    (toConfig s).maxWidth = s.column ∧ (toConfig s).tab = s.tab ∧ (toConfig s).reorder = s.reorder ∧
+    (toConfig s).blankUpper = ({} : Typstyle.Config).blankUpper := ⟨rfl, rfl, rfl, rfl⟩
+
+/-- Different options give different configurations (nothing is collapsed). -/
+theorem C16_toConfig_injective (s t : Style) (h : toConfig s = toConfig t) : s = t := by
+  cases s; cases t
+  simp only [toConfig, Typstyle.Config.mk.injEq] at h
+  simp_all
+
+/-- `format_with_width` (the function exported to WebAssembly): the library at the default
+configuration with the given width, or the input unchanged when it is refused. -/
+def formatWithWidth (lib : Lib) (content : String) (width : Nat) : String :=
+  (lib { column := width } content).getD content
+
+theorem C16_format_with_width_refusal (lib : Lib) (content : String) (width : Nat)
+    (h : lib { column := width } content = none) : formatWithWidth lib content width = content := by
+  simp [formatWithWidth, h]
 
 end Typstyle.Cli
